@@ -111,6 +111,13 @@ def f32ToF64Bits (b : Nat) : Nat :=
       s + e * 2^52 + frac
   else s + (exp + 896) * 2^52 + man * 2^29
 
+def hexDigitByte (n : Nat) : Nat := if n < 10 then 48 + n else 87 + n
+
+/-- `HexBytes` Debug rendering of tracing-core 0.1.33 (`record_bytes` default): `[01 ff]`. -/
+def renderBytes (raw : List Nat) : Str :=
+  let body := raw.map fun b => [hexDigitByte (b / 16 % 16), hexDigitByte (b % 16)]
+  [91] ++ (body.intersperse [32]).flatten ++ [93]
+
 /-- Primitive guest values and how `tracing-core`'s `Value` impls present them to a visitor
     (environment: tracing-core 0.1.33 `field.rs`). -/
 inductive Prim where
@@ -121,7 +128,7 @@ inductive Prim where
   | str (s : Str) | string (s : Str)
   | display (rendered : Str) | debugFmt (rendered : Str)
   | error (msg : Str) (sources : List Str)
-  | bytes (rendered : Str)
+  | bytes (raw : List Nat)
   deriving DecidableEq, Repr
 
 def Prim.toRaw : Prim → Raw
@@ -133,7 +140,8 @@ def Prim.toRaw : Prim → Raw
   | .f64 b => .f64 b
   | .bool b => .bool b
   | .str s | .string s => .str s
-  | .display s | .debugFmt s | .bytes s => .debug s
+  | .display s | .debugFmt s => .debug s
+  | .bytes raw => .debug (renderBytes raw)
   | .error m ss => .error m ss
 
 /-- `TracedValue::as_value` (receiver/mod.rs:46-61): the callback a host visitor receives when
